@@ -14,7 +14,8 @@ adds, on a type of its own (`XExpr`; the definitions of `Model/Format.lean` are 
 
 Mirrors `format_subexpression` arm by arm; the tables come from `Gen.FmtTables` / `Gen.SyntaxTables`.
 Not in the tree type (the driver answers `unsupported`): `BracedInit` (no production of the parser reads it), attributes
-on declarators.
+on declarators.  Two adjacent `&` of a reference to a reference would lex as one `&&` token: the driver answers
+`unsupported` for such declarators (`Decl.glued`), the theorems exclude them.
 -/
 namespace RsslVerif.Model.FormatFull
 open RsslVerif.Gen.FmtTables RsslVerif.Gen.ParseTables RsslVerif.Gen.SyntaxTables RsslVerif.Model.Format
@@ -114,6 +115,16 @@ def falseIsAssignmentX (b : XExpr) : Bool :=
   match b with
   | .bin op _ _ => binPrec op == precTernaryConditional && op != .Sequence
   | _ => false
+
+/-- a reference directly inside a reference prints `&&` -/
+def Decl.glued : Decl → Bool
+  | .empty => false
+  | .name _ => false
+  | .ptr _ i => i.glued
+  | .ref (.ref _) => true
+  | .ref i => i.glued
+  | .arr i _ => i.glued
+  | .arrN i => i.glued
 
 def Decl.needsScope : Decl → Bool
   | .ptr _ _ => true
